@@ -68,10 +68,17 @@ def hook(event, args):
 sys.addaudithook(hook)
 import dassh, dassh.__main__ as M
 _orig = M._run_dassh
-def _wrapped(dassh_inp, args, timestep, wdir, link=None):
-    STATE['wdir'] = wdir if wdir is not None else dassh_inp.path
+def _wrapped(*a, **k):
+    # the directory this time point is meant to write in, however the
+    # function is handed it (positional, keyword or inside the settings)
+    wdir = k.get('wdir')
+    if wdir is None and len(a) >= 4:
+        wdir = a[3]
+    if wdir is None and len(a) >= 2 and isinstance(a[1], dict):
+        wdir = a[1].get('wdir')
+    STATE['wdir'] = wdir if wdir is not None else a[0].path
     try:
-        return _orig(dassh_inp, args, timestep, wdir, link)
+        return _orig(*a, **k)
     finally:
         STATE['wdir'] = None
 M._run_dassh = _wrapped
@@ -134,6 +141,24 @@ def build_problem(rng, small=False):
                 t['Hotspot']['clad']['subfactors'] = wl.choose(
                     rng, ['fftf_clad_mw', 'crbr_fuel_clad_mw'])
                 feats['hotspot'] = True
+    # user heat-transfer parameter lists (objects of the parsed input that
+    # the regions are handed) together with convection factors
+    for nm in names:
+        t = P['types'][nm]
+        if rng.random() < 0.35:
+            t['htc_params_duct'] = [float(rng.uniform(0.02, 0.03)), 0.8, 0.8,
+                                    float(rng.uniform(4.0, 8.0))]
+            if t.get('use_low_fidelity_model'):
+                t['convection_factor'] = float(wl.choose(rng, [0.3, 0.5,
+                                                               0.8]))
+            feats['user_htc'] = True
+        for rn, rg in t.get('AxialRegion', {}).items():
+            if rng.random() < 0.6:
+                rg['htc_params'] = [float(rng.uniform(0.02, 0.03)), 0.8, 0.8,
+                                    float(rng.uniform(4.0, 8.0))]
+                rg['convection_factor'] = float(wl.choose(rng, [0.3, 0.5,
+                                                                0.8]))
+                feats['user_htc'] = True
     feats['grids'] = 0
     for nm in names:
         t = P['types'][nm]
@@ -318,6 +343,7 @@ def run_history(case, res):
     res.tag('units=%s' % ('SI' if not feats.get('units') else 'user'))
     res.tag('hotspot=%s' % bool(feats.get('hotspot')))
     res.tag('spacer_grids=%s' % bool(feats.get('grids')))
+    res.tag('user_htc_params=%s' % bool(feats.get('user_htc')))
     if feats['pin']:
         res.nontrivial(repr(sorted((k, str(v)) for k, v in feats.items())))
     elif len(results) == 3:
